@@ -32,12 +32,19 @@ def main():
     d = os.path.join(ROOT, "seeded", sid)
     os.makedirs(d, exist_ok=True)
     shutil.copy(res["patch"], os.path.join(d, "patch.diff"))
-    shutil.copy(res["demo"], os.path.join(d, "demo.py"))
+    origin = os.path.dirname(os.path.dirname(res["demo"]))      # the author's scratch worktree
+
+    def keep(src, dst):
+        with open(src) as fp:
+            text = fp.read()
+        with open(dst, "w") as fp:
+            fp.write(text.replace(origin, "@WORKTREE@"))
+    keep(res["demo"], os.path.join(d, "demo.py"))
     # helper modules shipped next to the demonstration (fake solver, common code)
     dd = res.get("demo_dir") or os.path.dirname(res["demo"])
     for extra in os.listdir(dd):
         if extra.endswith(".py") and not extra.startswith(("demo_A", "demo_B")):
-            shutil.copy(os.path.join(dd, extra), os.path.join(d, extra))
+            keep(os.path.join(dd, extra), os.path.join(d, extra))
     caught = {c: {"caught": v["rc"] == 1, "signatures": v["signatures"][:3], "wall_s": v["wall"]}
               for c, v in res.get("checks", {}).items()}
     meta = {
